@@ -52,8 +52,10 @@ from engine.core import MachineryError, digest
 
 # every file's mtime is EPOCHS[e] + 0.5 s (September 2001 / January 2002: both sides of a DST switch); an
 # If-Modified-Since delta of 0 means equal after dropping the fraction
-EPOCHS = (1000000000, 1010000000)
-T0 = EPOCHS[0]
+NOW0 = int(time.time())
+# the server clock is an environment dimension: files dated in the past and in the future of it
+EPOCHS = {'past': 1000000000, 'past2': 1010000000, 'future1d': NOW0 + 86400, 'future10y': NOW0 + 315360000}
+T0 = EPOCHS['past']
 BADLM = -999999998
 PREFIXES = ('/static', '/s/t', '/static/')
 
@@ -136,14 +138,20 @@ class World:
         self.apps = {}
         self.nolm = fs['nolm']
         self.files = [self.abspath(f['path']) for f in fs['files'] if f['size'] >= 0]
-        self.epoch = 0
+        self.epoch = 'past'
+        self.mpath = self.abspath(fs['mfile'])
+        self.mversions = [bytes(x) for x in fs['mversions']]
+        self.mstate = 0
+        for k, nm in fs['clocks'].items():
+            if (NOW0 - EPOCHS[k] > 0) != (nm > 0):
+                raise MachineryError('clock %r is on the other side of now than the specification says' % k)
         self.tz0 = os.environ.get('TZ')
         # process time zones: usable iff the C library really gives the offsets the specification lists
         self.zones, self.zone_requests = {}, {}
         for z, offs in fs['zones'].items():
             os.environ['TZ'] = z
             time.tzset()
-            if [time.localtime(e).tm_gmtoff for e in EPOCHS] == list(offs):
+            if [time.localtime(EPOCHS[e]).tm_gmtoff for e in ('past', 'past2')] == list(offs):
                 self.zones[z] = list(offs)
         self.set_zone('UTC')
         if 'UTC' not in self.zones or len([z for z, o in self.zones.items() if o[0]]) < 3:
@@ -161,9 +169,20 @@ class World:
 
     def set_epoch(self, e):
         if e != self.epoch:
-            for p in self.files:
+            for p in self.files + ([self.mpath] if self.mstate else []):
                 os.utime(p, (EPOCHS[e] + 0.5, EPOCHS[e] + 0.5))
             self.epoch = e
+
+    def set_m(self, m):
+        """the mutable file root/m: 0 absent, 1 / 2 present in one of two versions"""
+        if m != self.mstate:
+            if m == 0:
+                os.unlink(self.mpath)
+            else:
+                with open(self.mpath, 'wb') as fh:
+                    fh.write(self.mversions[m - 1])
+                os.utime(self.mpath, (EPOCHS[self.epoch] + 0.5, EPOCHS[self.epoch] + 0.5))
+            self.mstate = m
 
     def segstr(self, seg):
         return ''.join('.' if a == '.' else self.names[a] for a in seg)
@@ -185,9 +204,11 @@ class World:
         time.tzset()
 
     # ---- apps ------------------------------------------------------------------------------
-    def app(self, iface, fb, dl, pv, dv, lifo=0):
+    def app(self, iface, fb, dl, pv, dv, lifo=0, fresh=False):
         key = (iface, fb, dl, pv, dv, lifo)
-        if key not in self.apps:
+        if fresh:
+            self.app(*key)             # warmed up once; then a new app = a new route object with no history
+        if fresh or key not in self.apps:
             import falcon
             import falcon.asgi
             import pathlib
@@ -203,6 +224,8 @@ class World:
                 # order); the decoy serves the sibling directory, so a wrong order shows up as an outside open
                 a.add_static_route(PREFIXES[pv], self.sibling)
             a.add_static_route(PREFIXES[pv], d, downloadable=bool(dl), **kw)
+            if fresh:
+                return a
             self.apps[key] = a
             # warm-up: let the interpreter do its lazy imports before anything is audited
             pre = PREFIXES[pv].rstrip('/').encode()
@@ -245,7 +268,7 @@ class World:
         return b''.join(out), esc
 
     @staticmethod
-    def headers(c, rng, epoch=0):
+    def headers(c, rng):
         hs = []
         r = c['range']
         k = r['k']
@@ -255,7 +278,7 @@ class World:
             hs.append((rng.choice(('Range', 'range', 'RANGE')), v))
         i = c['ims']
         if i['k'] == 'date':
-            hs.append(('If-Modified-Since', email.utils.formatdate(EPOCHS[epoch] + i['d'], usegmt=True)))
+            hs.append(('If-Modified-Since', email.utils.formatdate(EPOCHS[c['clock']] + i['d'], usegmt=True)))
         elif i['k'] == 'bad':
             hs.append(('If-Modified-Since', rng.choice(BAD_DATES)))
         return hs
@@ -275,13 +298,14 @@ class World:
             return None
         return 'out'
 
-    def observe(self, c, v):
+    def observe(self, c, v, app=None):
         """Run abstract request c in concrete variant v on the real route; returns the projected observation."""
-        app = self.app(v['iface'], c['fb'], v['dl'], v['pv'], v['dv'], v.get('lifo', 0))
+        if app is None:
+            app = self.app(v['iface'], c['fb'], v['dl'], v['pv'], v['dv'], v.get('lifo', 0))
         pre = PREFIXES[v['pv']].rstrip('/')
         target = pre.encode() + (b'' if c['head'] == 'bare' else b'/' + v['target'].encode('latin-1'))
         req = drivers.Req(target=target, headers=[tuple(h) for h in v['headers']])
-        self.set_epoch(v.get('epoch', 0))
+        self.set_epoch(c['clock'])
         self.set_zone(c['zone'])
         self.zone_requests[c['zone']] = self.zone_requests.get(c['zone'], 0) + 1
         _AUDIT['log'] = log = []
@@ -313,7 +337,7 @@ class World:
             try:
                 dt = email.utils.parsedate_to_datetime(lmh[0])
                 lm = int(dt.timestamp()) - EPOCHS[self.epoch] if len(lmh) == 1 and dt.tzinfo is not None else BADLM
-                if abs(lm) > 10 ** 9:
+                if abs(lm) > 2 * 10 ** 9:
                     lm = BADLM
             except Exception:
                 lm = BADLM
@@ -323,10 +347,9 @@ class World:
 
 def variant(world, c, rng, iface=None, mode=None):
     tb, esc = world.render(c['path'], mode or rng.choice(('raw', 'enc', 'mix')), rng)
-    epoch = rng.randrange(2)
-    return {'epoch': epoch,'iface': iface or rng.choice(('wsgi', 'asgi')), 'dl': rng.randrange(2), 'pv': rng.randrange(len(PREFIXES)),
+    return {'iface': iface or rng.choice(('wsgi', 'asgi')), 'dl': rng.randrange(2), 'pv': rng.randrange(len(PREFIXES)),
             'dv': rng.randrange(3), 'fw': rng.randrange(2), 'lifo': rng.randrange(2), 'target': tb.decode('latin-1'),
-            'headers': World.headers(c, rng, epoch), 'escaped': esc}
+            'headers': World.headers(c, rng), 'escaped': esc}
 
 
 def nontrivial(c, v):
@@ -338,7 +361,7 @@ def nontrivial(c, v):
 
 IN_NAMES = [['f3'], ['f0'], ['f6'], ['f1'], ['f5', '.', 't'], ['sub'], ['g2'], ['f3'], ['sub']]
 OUT_NAMES = [['base'], ['tmp'], ['root'], ['root', 'x'], ['s4'], ['o5'], ['fb3']]
-GHOSTS = [['x'], ['u'], ['f3', 'x'], ['x', 'x'], ['L'], ['M'], ['t'], ['f5', '.'], ['u', 'u'], ['.', '.', '.'],
+GHOSTS = [['x'], ['u'], ['m'], ['f3', 'x'], ['x', 'x'], ['L'], ['M'], ['t'], ['f5', '.'], ['u', 'u'], ['.', '.', '.'],
           ['.', '.', 'x'], ['.', 'f3'], ['f5', 't']]
 DD = ['.', '.']
 
@@ -419,6 +442,7 @@ def rand_case(rng, zones, zones_off):
         'unit' if t < 0.90 else 'bad'
     r = {'k': k, 'a': rand_num(rng) if k in ('fl', 'f', 's') else 0, 'b': rand_num(rng) if k == 'fl' else 0}
     zone = rng.choice(zones)
+    clock = rng.choice(('past', 'past2', 'future1d', 'future10y'))
     t = rng.random()
     if t < 0.5:
         ims = {'k': 'none', 'd': 0}
@@ -429,44 +453,56 @@ def rand_case(rng, zones, zones_off):
         t = rng.random()
         d = rng.choice((-1, 0, 1)) if t < 0.35 else \
             rng.choice((-1, 1)) * (off + rng.choice((-1, 0, 1))) if t < 0.75 else \
-            rng.randint(-off - 2, off + 2) if t < 0.9 else rng.choice((-34560000, 345600000, -3600, 3600, 86400))
+            rng.randint(-off - 2, off + 2) if t < 0.85 else \
+            rng.choice((-34560000, 345600000, -3600, 3600, 86400, 1500000000, 800000000, 86401, 315360001))
         ims = {'k': 'date', 'd': d}
     fb = rng.choice(('none', 'none', 'in', 'out'))
     if rng.random() < 0.02:
-        return {'path': [], 'fb': fb, 'head': rng.choice(('under', 'bare')), 'range': r, 'ims': ims, 'zone': zone}
+        return {'path': [], 'fb': fb, 'head': rng.choice(('under', 'bare')), 'range': r, 'ims': ims, 'zone': zone, 'clock': clock}
     if k != 'none' and rng.random() < 0.6:          # range cases mostly hit a file
         path = list(rng.choice(IN_NAMES[:5])) if rng.random() < 0.8 else ['sub', '/', 'g2']
     else:
         path = rand_path(rng)
     if ims['k'] != 'none' and rng.random() < 0.5:   # conditional cases mostly hit a file
         path = list(rng.choice(IN_NAMES[:5]))
-    return {'path': path, 'fb': fb, 'head': 'under', 'range': r, 'ims': ims, 'zone': zone}
+    return {'path': path, 'fb': fb, 'head': 'under', 'range': r, 'ims': ims, 'zone': zone, 'clock': clock}
 
 
 # ---------------------------------------------------------------------------------------------
 
 def signature(clause, c):
     return {'clause': clause, 'fb': c['fb'], 'head': c['head'], 'range_kind': c['range']['k'], 'ims': c['ims']['k'],
-            'ims_sign': (c['ims']['d'] > 0) - (c['ims']['d'] < 0), 'zone': c['zone'],
+            'ims_sign': (c['ims']['d'] > 0) - (c['ims']['d'] < 0), 'zone': c['zone'], 'clock': c['clock'],
             'path_atoms': sorted(set(a for a in c['path'] if a in ('/', '.', 'sp', 'bsl', 'bad', 'u', 'L', 'M')))}
 
 
 def judge_and_report(ctx, items, origin):
-    """items: list of (case, [observations], example variant).  TLC decides."""
+    """items: list of (steps, variants): steps = [{'m': state of root/m, 'c': request, 'o': observation}], one
+    variant per step.  Steps of one item repeat one request under several spellings, or form a history on one
+    route object.  TLC decides."""
     if not items:
         return
-    traces = [{'c': c, 'obs': obs} for c, obs, _ in items]
+    traces = [{'steps': steps} for steps, _ in items]
     verdicts = ctx.judge('StaticRouteTrace', traces, timeout=1500, workers=8, chunk=6000)
-    for (c, obs, v), verdict in zip(items, verdicts):
+    for (steps, vs), verdict in zip(items, verdicts):
         if verdict == 'ok':
             continue
         clause, _, at = verdict.partition('@')
-        k = max(0, min(len(obs) - 1, int(at or 1) - 1))
-        case = {'c': c, 'variant': v[k] if isinstance(v, list) else v, 'obs': obs[k], 'origin': origin}
-        what = '%s: request %s -> status %s opens %s (judged by StaticRouteTrace)' % (
-            origin, {kk: c[kk] for kk in ('path', 'fb', 'head', 'range', 'ims', 'zone')}, obs[k]['status'], obs[k]['opens'])
+        k = max(0, min(len(steps) - 1, int(at or 1) - 1))
+        c, o = steps[k]['c'], steps[k]['o']
+        history = any(st['c'] != c or st['m'] != steps[k]['m'] for st in steps)
+        case = {'c': c, 'variant': vs[k], 'obs': o, 'origin': origin}
+        if history:
+            case['steps'] = [{'m': st['m'], 'c': st['c'], 'variant': v} for st, v in zip(steps[:k + 1], vs)]
+        what = '%s: %srequest %s with root/m in state %d -> status %s opens %s body %s (judged by StaticRouteTrace)' % (
+            origin, 'step %d of a history on one route, ' % (k + 1) if history else '',
+            {kk: c[kk] for kk in ('path', 'fb', 'head', 'range', 'ims', 'zone', 'clock')}, steps[k]['m'], o['status'],
+            o['opens'], o['body'][:8])
         if clause.startswith('P:'):
-            ctx.violation(clause, case, what, signature=signature(clause, c))
+            sig = signature(clause, c)
+            if history:
+                sig['history'] = [[st['m'], ''.join(st['c']['path'])] for st in steps[:k + 1]]
+            ctx.violation(clause, case, what, signature=sig)
         else:
             ctx.detail(clause, case, what)
 
@@ -526,6 +562,12 @@ def run(ctx):
                                  'Modified', 'RangeFull', 'RangePartial', 'RangeBad'])
         res['cond'] = r
 
+    def m_hist():
+        r = ctx.tlc('MC_StaticRoute', 'MC_StaticRouteHist.cfg', coverage=True, workers=4, timeout=600)
+        ctx.require_coverage(r, ['CreateFile', 'RemoveFile', 'ReplaceFile', 'OpenRequested', 'OpenFallback', 'OpenMiss',
+                                 'RangeFull', 'RangePartial'])
+        res['hist'] = r
+
     def m_wide():
         if q:
             r = ctx.tlc('MC_StaticRoute', 'MC_StaticRouteWide3.cfg', coverage=True, workers=6, timeout=600)
@@ -547,7 +589,8 @@ def run(ctx):
         # (the final '..' test still stops it)
         want = {'MC_StaticRouteBadAbs.cfg': True, 'MC_StaticRouteBadDots.cfg': True, 'MC_StaticRouteBadFinal.cfg': True,
                 'MC_StaticRouteDepth.cfg': False, 'MC_StaticRouteBadLen.cfg': True, 'MC_StaticRouteBadUnsat.cfg': True,
-                'MC_StaticRouteBadIms.cfg': True, 'MC_StaticRouteBadZone.cfg': True}
+                'MC_StaticRouteBadIms.cfg': True, 'MC_StaticRouteBadZone.cfg': True, 'MC_StaticRouteBadClock.cfg': True,
+                'MC_StaticRouteBadMemo.cfg': True}
         out = {}
         for cfg, must_fail in want.items():
             r = ctx.tlc('MC_StaticRoute', cfg, workers=2, timeout=600, must_hold=False, count=False)
@@ -573,6 +616,7 @@ def run(ctx):
     world = None
     try:
         r = wait('range')
+        background(m_hist)
         background(m_more)           # off the critical path: started once the first export is in
         background(m_wrong)
         fs = [j for j in r.json if j.get('t') == 'fs']
@@ -584,13 +628,16 @@ def run(ctx):
         mismatches = []
         stats = {'wsgi': 0, 'asgi': 0}
 
-        def replay_cases(cases, asgi_every, tag):
+        def replay_cases(cases, asgi_every, tag, spellings=2):
             n = 0
+            cases = sorted(cases, key=lambda j: (j['c']['clock'], j['c']['zone']))
             for i, j in enumerate(cases):
                 c, e = j['c'], j['e']
                 if c['zone'] not in world.zones:
                     continue                      # not expressible here: the C library does not know the zone
-                plans = [('wsgi', 'raw'), ('wsgi', 'enc' if i % 2 else 'mix')]
+                plans = [('wsgi', 'raw'), ('wsgi', 'enc' if i % 2 else 'mix')][:spellings]
+                if spellings == 1:
+                    plans = [('wsgi', ('raw', 'enc', 'mix')[i % 3])]
                 if i % asgi_every == 0:
                     plans.append(('asgi', ('raw', 'enc', 'mix')[(i // asgi_every) % 3]))
                 obs_seen = []
@@ -606,7 +653,7 @@ def run(ctx):
                         obs_seen.append(o)
                         vs.append(v)
                 if obs_seen:
-                    mismatches.append((c, obs_seen, vs))
+                    mismatches.append(([{'m': 0, 'c': c, 'o': o} for o in obs_seen], vs))
             ctx.traces_validated += n
             ctx.progress('leg A %s: %d spec cases, %d replays, %d differing so far' % (tag, len(cases), n, len(mismatches)))
 
@@ -616,15 +663,69 @@ def run(ctx):
         ctx.samples = ctx.samples[:2]            # leave room for a path sample and a random one
         rc = wait('cond')
         cond_cases = list({digest(j['c']): j for j in rc.json if j.get('t') == 'case'}.values())
-        replay_cases(cond_cases, ctx.pick(2, 1), 'conditional x zones')
+        replay_cases(cond_cases, ctx.pick(4, 1), 'conditional x zones x clocks', spellings=ctx.pick(1, 2))
         rw = wait('wide')
         path_cases = list({digest(j['c']): j for j in rw.json if j.get('t') == 'case'}.values())
         ctx.progress('wide model done (%d states, %d cases)' % (rw.distinct, len(path_cases)))
         replay_cases(path_cases, ctx.pick(6, 5), 'paths')
         ctx.samples = ctx.samples[:4]
-        ctx.extra['spec_cases_replayed'] = {'range_ims': len(range_cases), 'conditional_x_zones': len(cond_cases),
+        ctx.extra['spec_cases_replayed'] = {'range_ims': len(range_cases), 'conditional_x_zones_x_clocks': len(cond_cases),
                                             'paths': len(path_cases)}
         judge_and_report(ctx, mismatches, 'leg A (spec case differs on the code)')
+
+        # ---- histories on one route object with the file system changing in between ------------------
+        def run_history(hsteps, iface):
+            """hsteps: [{'m', 'c'}]; one fresh app (route object) for the whole history"""
+            c0 = hsteps[0]['c']
+            v0 = variant(world, c0, rng, iface)
+            app = world.app(iface, c0['fb'], v0['dl'], v0['pv'], v0['dv'], v0['lifo'], fresh=True)
+            out, vs = [], []
+            try:
+                for st in hsteps:
+                    world.set_m(st['m'])
+                    v = dict(variant(world, st['c'], rng, iface), dl=v0['dl'], pv=v0['pv'], dv=v0['dv'], lifo=v0['lifo'])
+                    o, _ = world.observe(st['c'], v, app=app)
+                    stats[iface] += 1
+                    ctx.case({'c': st['c'], 'variant': v, 'm': st['m']}, nontrivial=True,
+                             key=hash((repr(hsteps), v['target'], iface, len(out))))
+                    out.append({'m': st['m'], 'c': st['c'], 'o': o})
+                    vs.append(v)
+            finally:
+                world.set_m(0)
+            return out, vs
+
+        rh = wait('hist')
+        hists = list({digest(j['steps']): j for j in rh.json if j.get('t') == 'hist'}.values())
+        hist_bad = []
+        for i, j in enumerate(hists):
+            for iface in (('wsgi', 'asgi') if i % ctx.pick(8, 1) == 0 else ('wsgi',)):
+                out, vs = run_history(j['steps'], iface)
+                if any(a['o'] != b['e'] for a, b in zip(out, j['steps'])):
+                    hist_bad.append((out, vs))
+        ctx.traces_validated += len(hists)
+        ctx.progress('leg A histories: %d spec histories of %d requests, %d differing' % (
+            len(hists), len(hists[0]['steps']) if hists else 0, len(hist_bad)))
+        judge_and_report(ctx, hist_bad, 'leg A history (spec history differs on the code)')
+        nh = ctx.pick(1500, 25000)
+        hitems = {}
+        for i in range(nh):
+            fb = rng.choice(('none', 'in', 'out', 'out'))
+            m = rng.randrange(3)
+            hs = []
+            p = rng.choice((['m'], ['m'], ['f3'], ['sub', '/', '.', '.', '/', 'm'], ['x']))
+            for k in range(rng.randint(2, 4)):
+                c = rand_case(rng, ['UTC'], world.zones)
+                c.update(fb=fb, head='under', path=p if rng.random() < 0.8 else rng.choice((['m'], ['f3'], ['f1'])))
+                if rng.random() < 0.7:
+                    c['ims'] = {'k': 'none', 'd': 0}
+                hs.append({'m': m, 'c': c})
+                if rng.random() < 0.7:
+                    m = rng.choice([x for x in (0, 1, 2) if x != m])
+            out, vs = run_history(hs, 'asgi' if rng.random() < 0.2 else 'wsgi')
+            hitems.setdefault(digest(out), (out, vs))
+        ctx.progress('leg B histories: %d random histories, %d distinct; judging' % (nh, len(hitems)))
+        judge_and_report(ctx, list(hitems.values()), 'leg B history')
+        ctx.extra['histories'] = {'spec': len(hists), 'random': nh, 'random_distinct': len(hitems)}
 
         # ---- leg B: random requests beyond the bound, judged by TLC ----------------------------------
         nb = ctx.pick(14000, 220000)
@@ -637,10 +738,10 @@ def run(ctx):
             stats[v['iface']] += 1
             ctx.case({'c': c, 'variant': v}, nontrivial=nontrivial(c, v),
                      key=hash((repr(c), v['target'], repr(v['headers']), v['iface'])))
-            g = groups.setdefault(digest(c), (c, [], []))
-            if o not in g[1]:
-                g[1].append(o)
-                g[2].append(v)
+            g = groups.setdefault(digest(c), ([], []))
+            if all(st['o'] != o for st in g[0]):
+                g[0].append({'m': 0, 'c': c, 'o': o})
+                g[1].append(v)
             if i and i % 50000 == 0:
                 ctx.progress('leg B: %d requests, %d distinct abstract cases' % (i, len(groups)))
         ctx.progress('leg B: %d requests, %d distinct abstract cases; judging' % (nb, len(groups)))
@@ -667,21 +768,30 @@ def run(ctx):
 
 
 def replay(ctx, case):
-    """Re-run one recorded failing request and let TLC judge it again."""
+    """Re-run one recorded failing request (or history on one route object) and let TLC judge it again."""
     install_hook()
     r = ctx.tlc('MC_StaticRoute', 'MC_StaticRouteRange.cfg', workers=4, timeout=600)
     fs = [j for j in r.json if j.get('t') == 'fs'][0]
     world = World(fs, random.Random(ctx.seed))
     try:
-        c, v = case['c'], case['variant']
-        o, res = world.observe(c, v)
-        print('request :', c)
-        print('variant :', v)
-        print('observed:', o, 'exception:', repr(res.exc))
-        verdict = ctx.judge('StaticRouteTrace', [{'c': c, 'obs': [o]}], workers=1)[0]
+        steps = case.get('steps') or [{'m': 0, 'c': case['c'], 'variant': case['variant']}]
+        v0 = steps[0]['variant']
+        app = world.app(v0['iface'], steps[0]['c']['fb'], v0['dl'], v0['pv'], v0['dv'], v0.get('lifo', 0), fresh=True)
+        out = []
+        for st in steps:
+            world.set_m(st['m'])
+            o, res = world.observe(st['c'], st['variant'], app=app)
+            print('root/m :', st['m'])
+            print('request :', st['c'])
+            print('variant :', st['variant'])
+            print('observed:', o, 'exception:', repr(res.exc))
+            out.append({'m': st['m'], 'c': st['c'], 'o': o})
+        world.set_m(0)
+        verdict = ctx.judge('StaticRouteTrace', [{'steps': out}], workers=1)[0]
         print('verdict :', verdict)
         clause = verdict.partition('@')[0]
         if clause.startswith('P:'):
-            ctx.violation(clause, {'c': c, 'variant': v, 'obs': o}, 'replayed', signature=signature(clause, c))
+            ctx.violation(clause, dict(case, obs=out[-1]['o']), 'replayed', signature=signature(clause, out[-1]['c']))
     finally:
+        world.set_m(0)
         world.close()
